@@ -14,6 +14,10 @@ import (
 //	idhex <gen> t|s <xhex> => ok <xbytes> | err
 //	parsets <gen> <xheader> => ok <n> <xString()> <members> <x re-parsed String()|err> | err
 //	tsedit <gen> <xheader> | ins <xk> <xv> | del <xk> | get <xk> ... => <r0> | <r1> | ...
+//	tssib <gen> <xheader> | <j> ins <xk> <xv> | <j> del <xk> | <j> get <xk> | <j> walk <n> ... => <r0> | <r1> | ...
+//	    (every op names the earlier value j it applies to; all earlier values are re-read after every op)
+//	scops <gen> <xtid> <xsid> <flags> <remote> <members> | tid <x> | sid <x> | fl <n> | rem <0|1> | ts <members> | sampled <0|1>
+//	    => builderr | <d0> | <d1> ...   d = <xtid>:<xsid>:<flags>:<remote>:<xtsString>:<valid>:<sampled>:<Equal(previous)>
 //
 // members = `-` or comma-separated <xkey>:<xval> (from Walk). See lean/Otel/C03/Main.lean.
 func TestVerifC03Ts(t *testing.T) {
@@ -32,7 +36,13 @@ func TestVerifC03Ts(t *testing.T) {
 		c.exhaustive()
 	}
 	for i := 0; i < n; i++ {
-		switch r.Intn(16) {
+		switch r.Intn(20) {
+		case 19:
+			c.limits(r)
+		case 16, 17:
+			c.sib(r)
+		case 18:
+			c.scops(r)
 		case 0, 1:
 			c.checkKey("gen", c03Key(r, true))
 		case 2:
@@ -297,6 +307,11 @@ func (c *c03ts) replay(f []string) {
 		c.idHexOne(f[1], f[2], vUnhex(f[3]))
 	case "parsets":
 		c.parseTS(f[1], vUnhex(f[2]))
+	case "tssib":
+		c.sibRun(f[1], vUnhex(f[2]), c03Groups(f[3:]))
+	case "scops":
+		fl, _ := strconv.Atoi(f[4])
+		c.scopsRun(f[1], vUnhex(f[2]), vUnhex(f[3]), byte(fl), f[5] == "1", f[6], c03Groups(f[7:]))
 	case "tsedit":
 		var ops [][]string
 		var cur []string
@@ -498,4 +513,357 @@ func c03N(r *vRand) int {
 		return vPick(r, []int{30, 31, 32, 33, 34})
 	}
 	return r.Intn(8)
+}
+
+// ---- sibling edits: values derived from one parent, every earlier value re-read after every later call ----
+
+// c03Groups splits `| a b | c d` into [[a b] [c d]].
+func c03Groups(toks []string) [][]string {
+	var ops [][]string
+	var cur []string
+	for _, tok := range toks {
+		if tok == "|" {
+			if cur != nil {
+				ops = append(ops, cur)
+			}
+			cur = []string{}
+			continue
+		}
+		cur = append(cur, tok)
+	}
+	if cur != nil {
+		ops = append(ops, cur)
+	}
+	return ops
+}
+
+func (c *c03ts) sibRun(gen, h string, ops [][]string) {
+	var sb strings.Builder
+	func() {
+		defer func() {
+			if e := recover(); e != nil {
+				sb.WriteString(" | panic")
+			}
+		}()
+		ts, err := ParseTraceState(h)
+		if err != nil {
+			sb.WriteString("err:x")
+		} else {
+			sb.WriteString("ok:" + vHex(ts.String()))
+		}
+		vals := []TraceState{ts}
+		strs := []string{ts.String()}
+		mems := []string{c03Members(ts)}
+		unchanged := func() int {
+			for i, v := range vals {
+				if v.String() != strs[i] || c03Members(v) != mems[i] || v.Len() != strings.Count(mems[i], ":") {
+					return 0
+				}
+			}
+			return 1
+		}
+		for _, op := range ops {
+			j, _ := strconv.Atoi(op[0])
+			if j >= len(vals) {
+				j = len(vals) - 1
+			}
+			cur := vals[j]
+			nv := cur
+			switch op[1] {
+			case "ins":
+				n2, err := cur.Insert(vUnhex(op[2]), vUnhex(op[3]))
+				st := "ok"
+				if err != nil {
+					st = "err"
+				}
+				nv = n2
+				// record the new value before the re-read so that it is covered by later steps, not this one
+				fmt.Fprintf(&sb, " | %s:%s:%d:%d", st, vHex(nv.String()), nv.Len(), unchanged())
+			case "del":
+				nv = cur.Delete(vUnhex(op[2]))
+				fmt.Fprintf(&sb, " | ok:%s:%d:%d", vHex(nv.String()), nv.Len(), unchanged())
+			case "get":
+				fmt.Fprintf(&sb, " | val:%s", vHex(cur.Get(vUnhex(op[2]))))
+			case "walk":
+				n, _ := strconv.Atoi(op[2])
+				var ps []string
+				calls := 0
+				cur.Walk(func(k, v string) bool {
+					calls++
+					ps = append(ps, vHex(k)+":"+vHex(v))
+					return calls != n
+				})
+				w := "-"
+				if len(ps) > 0 {
+					w = strings.Join(ps, ",")
+				}
+				fmt.Fprintf(&sb, " | w=%s", w)
+			}
+			vals = append(vals, nv)
+			strs = append(strs, nv.String())
+			mems = append(mems, c03Members(nv))
+		}
+	}()
+	var in strings.Builder
+	for _, op := range ops {
+		in.WriteString(" | " + strings.Join(op, " "))
+	}
+	c.out.Line("tssib %s %s%s => %s", gen, vHex(h), in.String(), sb.String())
+}
+
+func (c *c03ts) sib(r *vRand) {
+	n0 := vPick(r, []int{0, 1, 2, 5, 30, 31, 32, 32})
+	pool := make([]string, 36)
+	for i := range pool {
+		pool[i] = "k" + strconv.Itoa(i)
+	}
+	var ms []string
+	for i := 0; i < n0; i++ {
+		ms = append(ms, pool[i]+"="+c03ShortVal(r))
+	}
+	for i := len(ms) - 1; i > 0; i-- {
+		j := r.Intn(i + 1)
+		ms[i], ms[j] = ms[j], ms[i]
+	}
+	nops := 1 + r.Intn(24)
+	var ops [][]string
+	for i := 0; i < nops; i++ {
+		// target: the latest value, the parent of the latest (a sibling), or any earlier value
+		j := i
+		switch r.Intn(5) {
+		case 0:
+			j = r.Intn(i + 1)
+		case 1, 2:
+			if i > 0 {
+				j = i - 1
+			}
+		}
+		k := pool[r.Intn(len(pool))]
+		switch r.Intn(12) {
+		case 0:
+			k = c03Key(r, true)
+		case 1:
+			k = "n" + strconv.Itoa(r.Intn(1000))
+		}
+		js := strconv.Itoa(j)
+		switch r.Intn(10) {
+		case 0, 1, 2:
+			ops = append(ops, []string{js, "del", vHex(k)})
+		case 3:
+			ops = append(ops, []string{js, "get", vHex(k)})
+		case 4:
+			ops = append(ops, []string{js, "walk", strconv.Itoa(r.Intn(5) * r.Intn(9))})
+		default:
+			v := c03ShortVal(r)
+			if r.Intn(8) == 0 {
+				v = c03Val(r, true)
+			}
+			ops = append(ops, []string{js, "ins", vHex(k), vHex(v)})
+		}
+	}
+	c.sibRun("sib", strings.Join(ms, ","), ops)
+}
+
+// ---- SpanContext copy constructors ----
+
+func c03BuildTS(mem string) (TraceState, bool) {
+	ts := TraceState{}
+	if mem == "-" {
+		return ts, true
+	}
+	ps := strings.Split(mem, ",")
+	for i := len(ps) - 1; i >= 0; i-- {
+		kv := strings.Split(ps[i], ":")
+		var err error
+		ts, err = ts.Insert(vUnhex(kv[0]), vUnhex(kv[1]))
+		if err != nil {
+			return TraceState{}, false
+		}
+	}
+	return ts, true
+}
+
+func c03ScDump(sc, prev SpanContext) string {
+	tid, sid := sc.TraceID(), sc.SpanID()
+	return fmt.Sprintf("%s:%s:%d:%d:%s:%d:%d:%d", vHexB(tid[:]), vHexB(sid[:]), byte(sc.TraceFlags()), c03b(sc.IsRemote()),
+		vHex(sc.TraceState().String()), c03b(sc.IsValid()), c03b(sc.IsSampled()), c03b(sc.Equal(prev)))
+}
+
+func (c *c03ts) scopsRun(gen, tid, sid string, flags byte, remote bool, mem string, ops [][]string) {
+	var res []string
+	func() {
+		defer func() {
+			if e := recover(); e != nil {
+				res = append(res, "panic")
+			}
+		}()
+		ts, ok := c03BuildTS(mem)
+		if !ok {
+			res = []string{"builderr"}
+			return
+		}
+		var cfg SpanContextConfig
+		copy(cfg.TraceID[:], tid)
+		copy(cfg.SpanID[:], sid)
+		cfg.TraceFlags = TraceFlags(flags)
+		cfg.TraceState = ts
+		cfg.Remote = remote
+		sc := NewSpanContext(cfg)
+		res = append(res, c03ScDump(sc, sc))
+		for _, op := range ops {
+			prev := sc
+			switch op[0] {
+			case "tid":
+				var t TraceID
+				copy(t[:], vUnhex(op[1]))
+				sc = sc.WithTraceID(t)
+			case "sid":
+				var s SpanID
+				copy(s[:], vUnhex(op[1]))
+				sc = sc.WithSpanID(s)
+			case "fl":
+				f, _ := strconv.Atoi(op[1])
+				sc = sc.WithTraceFlags(TraceFlags(f))
+			case "rem":
+				sc = sc.WithRemote(op[1] == "1")
+			case "ts":
+				nts, _ := c03BuildTS(op[1])
+				sc = sc.WithTraceState(nts)
+			case "sampled":
+				sc = sc.WithTraceFlags(sc.TraceFlags().WithSampled(op[1] == "1"))
+			}
+			res = append(res, c03ScDump(sc, prev))
+		}
+	}()
+	var in strings.Builder
+	for _, op := range ops {
+		in.WriteString(" | " + strings.Join(op, " "))
+	}
+	tb, sb := make([]byte, 16), make([]byte, 8)
+	copy(tb, tid)
+	copy(sb, sid)
+	c.out.Line("scops %s %s %s %d %d %s%s => %s", gen, vHexB(tb), vHexB(sb), flags, c03b(remote), mem, in.String(), strings.Join(res, " | "))
+}
+
+func c03RandID(r *vRand, n int) string {
+	b := make([]byte, n)
+	switch r.Intn(6) {
+	case 0: // all zero
+	case 1:
+		b[r.Intn(n)] = byte(1 + r.Intn(255))
+	default:
+		for i := range b {
+			b[i] = byte(r.Intn(256))
+		}
+	}
+	return string(b)
+}
+
+func c03RandMembers(r *vRand) string {
+	n := vPick(r, []int{0, 0, 1, 2, 3, 32})
+	var ps []string
+	for i := 0; i < n; i++ {
+		ps = append(ps, vHex("m"+strconv.Itoa(i)+c03KeyPart(r, "ab", r.Intn(3)))+":"+vHex(c03ShortVal(r)))
+	}
+	if n == 0 {
+		return "-"
+	}
+	return strings.Join(ps, ",")
+}
+
+func (c *c03ts) scops(r *vRand) {
+	nops := 1 + r.Intn(8)
+	var ops [][]string
+	for i := 0; i < nops; i++ {
+		switch r.Intn(7) {
+		case 0:
+			ops = append(ops, []string{"tid", vHex(c03RandID(r, 16))})
+		case 1:
+			ops = append(ops, []string{"sid", vHex(c03RandID(r, 8))})
+		case 2:
+			ops = append(ops, []string{"fl", strconv.Itoa(vPick(r, []int{0, 1, 2, 3, 254, 255, r.Intn(256)}))})
+		case 3:
+			ops = append(ops, []string{"rem", strconv.Itoa(r.Intn(2))})
+		case 4:
+			ops = append(ops, []string{"ts", c03RandMembers(r)})
+		default:
+			ops = append(ops, []string{"sampled", strconv.Itoa(r.Intn(2))})
+		}
+	}
+	fl := byte(vPick(r, []int{0, 1, 2, 3, 255, r.Intn(256)}))
+	c.scopsRun("ops", c03RandID(r, 16), c03RandID(r, 8), fl, r.Bool(), c03RandMembers(r), ops)
+}
+
+// ---- members and lists at the grammar limits (both limits at once, one byte over, 32 / 33 members) ----
+
+func c03Fill(r *vRand, first string, n int) string {
+	if n <= 0 {
+		return ""
+	}
+	return c03KeyPart(r, first, n-1)
+}
+
+func c03LimitKey(r *vRand, over bool) string {
+	d := 0
+	if over {
+		d = 1
+	}
+	switch r.Intn(3) {
+	case 0:
+		return c03Fill(r, "abz", 256+d)
+	case 1:
+		return c03Fill(r, "a09", 241+d) + "@" + c03Fill(r, "abz", 14)
+	default:
+		return c03Fill(r, "a09", 241) + "@" + c03Fill(r, "abz", 14+d)
+	}
+}
+
+func c03LimitVal(r *vRand, n int) string {
+	b := make([]byte, n)
+	for i := range b {
+		b[i] = "az09 ~!;:"[r.Intn(9)]
+	}
+	if n > 0 && b[n-1] == ' ' {
+		b[n-1] = '~'
+	}
+	return string(b)
+}
+
+func (c *c03ts) limits(r *vRand) {
+	switch r.Intn(6) {
+	case 0:
+		c.checkVal("lim", c03LimitVal(r, vPick(r, []int{255, 256, 257, 258, 300, 512})))
+	case 1:
+		c.checkKey("lim", c03LimitKey(r, r.Bool()))
+	case 2:
+		// one member at BOTH limits (or one byte over in the key or in the value), alone or among others
+		k := c03LimitKey(r, r.Intn(4) == 0)
+		v := c03LimitVal(r, vPick(r, []int{256, 256, 256, 257}))
+		h := k + "=" + v
+		if r.Bool() {
+			h = "a=1," + h + ",b=2"
+		}
+		c.parseTS("lim", h)
+		c.editRun("lim", "a=1", [][]string{{"ins", vHex(k), vHex(v)}, {"get", vHex(k)}, {"ins", vHex("c"), vHex("3")}, {"del", vHex(k)}})
+	default:
+		// exactly 31 / 32 / 33 clean members, optionally with empty members and OWS in between (those do not count)
+		n := vPick(r, []int{31, 32, 32, 33})
+		var ms []string
+		for i := 0; i < n; i++ {
+			m := "k" + strconv.Itoa(i) + c03KeyPart(r, "ab", r.Intn(3)) + "=" + c03ShortVal(r)
+			switch r.Intn(8) {
+			case 0:
+				m = " " + m
+			case 1:
+				m = m + "\t"
+			case 2:
+				m = m + ","
+			}
+			ms = append(ms, m)
+		}
+		if r.Intn(6) == 0 {
+			ms[n-1] = ms[r.Intn(n-1)] // a duplicate in the last position
+		}
+		c.parseTS("lim", strings.Join(ms, ","))
+	}
 }
